@@ -1,6 +1,6 @@
 SPECIFICATION Spec
 CONSTANTS SqnArgs <- McSqn OvfArgs <- McOvf SetArgs <- McSet Starts <- Window
 ACTION_CONSTRAINT FromWindow
-INVARIANTS TypeOK Composed SetCommutes Lap
+INVARIANTS TypeOK Composed SetCommutes Lap Runs
 PROPERTIES AddOneCarries AddOneIsSuccessor SetSQNKeepsOverflow SetOverflowKeepsSQN SetIsBoth
 CHECK_DEADLOCK FALSE
